@@ -38,11 +38,26 @@ thread_local! {
     pub static SRC_PATH: std::cell::RefCell<Option<std::path::PathBuf>> = const { std::cell::RefCell::new(None) };
 }
 
+thread_local! {
+    /// Sample rate of the (simulated) audio device: what `Driver::init` receives from the backend.
+    pub static DEVICE_SR: std::cell::Cell<u32> = const { std::cell::Cell::new(48000) };
+}
+
+pub fn set_device_sample_rate(sr: Option<u64>) {
+    DEVICE_SR.with(|s| s.set(sr.map_or(48000, |x| x as u32)));
+}
+
+fn device_sr() -> u32 {
+    DEVICE_SR.with(|s| s.get())
+}
+
 pub fn set_src_path(p: Option<&str>) {
     SRC_PATH.with(|s| *s.borrow_mut() = p.map(std::path::PathBuf::from));
 }
 
 fn new_ctx(driver: &mut LocalBufferDriver, with_scheduler: bool) -> ExecContext {
+    // the driver's shared sample-rate cell is what `samplerate` reads on the VM
+    driver.set_sample_rate(mimium_audiodriver::driver::SampleRate::from(device_sr()));
     let audiodriverplug: Box<dyn Plugin> = Box::new(driver.get_as_plugin());
     let path = SRC_PATH.with(|s| s.borrow().clone());
     let mut ctx = ExecContext::new([audiodriverplug].into_iter(), path, Config::default());
@@ -116,7 +131,7 @@ struct WasmBuilt {
     bytes: Vec<u8>,
 }
 
-fn build_wasm(src: &str, with_scheduler: bool) -> Result<WasmBuilt, Vec<String>> {
+fn build_wasm(src: &str, with_scheduler: bool, prewarm: bool) -> Result<WasmBuilt, Vec<String>> {
     let mut driver = LocalBufferDriver::new(0);
     let mut ctx = new_ctx(&mut driver, with_scheduler);
     ctx.prepare_compiler();
@@ -128,15 +143,19 @@ fn build_wasm(src: &str, with_scheduler: bool) -> Result<WasmBuilt, Vec<String>>
     engine.load_module(&out.bytes).map_err(|e| vec![format!("load: {e}")])?;
     let mut rt = WasmDspRuntime::new(engine, out.io_channels, out.dsp_state_skeleton.clone());
     rt.set_wasm_audioworkers(workers);
-    // what Driver::init does (LocalBufferDriver: 48 kHz)
-    rt.set_sample_rate(48000.0);
+    // what Driver::init does with the device's rate; the PREWARMED runtime of a hot swap never meets a driver
+    // (mimium-cli try_prewarm_wasm_global_state runs main on a fresh WasmDspRuntime), the running runtime passes its
+    // rate on in try_hot_swap
+    if !prewarm {
+        rt.set_sample_rate(device_sr() as f64);
+    }
     rt.run_main().map_err(|e| vec![format!("main: {e}")])?;
     Ok(WasmBuilt { rt, skeleton: out.dsp_state_skeleton, io: out.io_channels, bytes: out.bytes })
 }
 
 impl WasmRun {
     pub fn new(src: &str, with_scheduler: bool) -> Result<Self, Vec<String>> {
-        let b = build_wasm(src, with_scheduler)?;
+        let b = build_wasm(src, with_scheduler, false)?;
         Ok(Self { rt: b.rt, skeleton: b.skeleton, io: b.io, with_scheduler })
     }
     pub fn step(&mut self, t: u64, input: &[f64]) -> (i64, Vec<f64>) {
@@ -156,7 +175,7 @@ impl WasmRun {
     /// Hot-swap prepared the way mimium-cli's `prepare_hot_swap_wasm_payload` does (prewarmed engine
     /// with main already run, patch plan from the two skeletons, whole-copy plan when they are equal).
     pub fn hot_swap(&mut self, src: &str) -> Result<bool, Vec<String>> {
-        let mut b = build_wasm(src, self.with_scheduler)?;
+        let mut b = build_wasm(src, self.with_scheduler, true)?;
         let prewarmed = b.rt.engine_mut().get_global_state_data().map(|d| d.to_vec()).unwrap_or_default();
         let plan = match (self.skeleton.clone(), b.skeleton.clone()) {
             (Some(old), Some(new)) => {
